@@ -165,7 +165,7 @@ theorem lineText_noNL {g1 w1 : Str} {items : List (Str × Str)} {tail : Str}
   · exact blank_ne_nl (htail c hc)
 
 theorem initial_POK (lim : Option Int) : POK { limit := lim } :=
-  ⟨⟨rfl, rfl, rfl, rfl, rfl, rfl, rfl⟩, rfl, rfl, rfl⟩
+  ⟨⟨rfl, rfl, rfl, rfl, rfl, rfl, rfl⟩, rfl, rfl, rfl, ⟨rfl, rfl, rfl⟩⟩
 
 /-- **one top-level parser run on a line of plain words** returns the command node -/
 theorem runParser_line {g1 w1 : Str} {items : List (Str × Str)} {tail : Str} (o : Opts)
